@@ -199,6 +199,12 @@ func intersect[T constraints.Integer](intv Interval[T], inters []Interval[T]) ([
 		begin := max(intv.Begin(), inter.Begin())
 		end := min(intv.End(), inter.End())
 		intvs = append(intvs, New(begin, end))
+
+		// The inter reaches behind the intv, so it can intersect intervals
+		// following the intv as well and it cannot be skipped.
+		if intv.End() < inter.End() {
+			return intvs, cnt - 1
+		}
 	}
 
 	return intvs, cnt - 1
